@@ -26,15 +26,15 @@ SCENARIOS = {
     "C18": ("gtsim.scenarios.boundary", {"prop": "C18"}),
 }
 
-RUNS = {  # property -> (quick runs, thorough runs)
-    "C04": (1200, 40000),
-    "C02": (700, 20000),
-    "C01": (1200, 40000),
-    "C19": (800, 25000),
-    "C11": (1500, 40000),
-    "C15": (1200, 40000),
-    "C12": (1000, 30000),
-    "C18": (400, 12000),
+RUNS = {  # property -> (quick workloads, thorough workloads); thorough aims at 15-20 min on 16 idle cores
+    "C04": (1200, 12000),
+    "C02": (700, 6000),
+    "C01": (1200, 12000),
+    "C19": (800, 6000),
+    "C11": (1500, 20000),
+    "C15": (1200, 10000),
+    "C12": (1000, 8000),
+    "C18": (400, 4000),
 }
 
 PER_RUN_TIMEOUT = 600
